@@ -71,7 +71,7 @@ Section Once.
   Qed.
 
   Record InvNC (s : state) : Prop := {
-    nc_boot : st_mode s <> Running -> st_tbl s = [] /\ st_colog s = [] /\ st_log s = [];
+    nc_boot : st_mode s <> Running -> st_colog s = [] /\ st_log s = [];
     nc_colog_nodup : NoDup (st_colog s);
     nc_colog_status : forall r, In r (st_tbl s) -> In (r_url r) (st_colog s) -> r_status r <> Todo;
     nc_init_nodup : NoDup (init_reqs (st_log s));
@@ -168,12 +168,16 @@ Section Once.
           -- specialize (Hm _ Hq). discriminate.
     - (* release *)
       destruct (st_mode s) eqn:M; try discriminate. inversion H; subst s'; clear H.
-      destruct (nc_boot s K) as [Et [Ec El]]; [congruence|]. rewrite Et, Ec, El.
+      destruct (nc_boot s K) as [Ec El]; [congruence|]. rewrite Ec, El.
       constructor; cbn; auto; try constructor; intros; contradiction.
     - (* add start URLs *)
       destruct (st_mode s) eqn:M; try discriminate. inversion H; subst s'; clear H.
-      destruct (nc_boot s K) as [Et [Ec El]]; [congruence|]. rewrite Et, Ec, El.
+      destruct (nc_boot s K) as [Ec El]; [congruence|]. rewrite Ec, El.
       constructor; cbn; auto; try constructor; try congruence; intros; contradiction.
+    - (* one batch of the start URLs *)
+      destruct (st_mode s) eqn:M; try discriminate. destruct ((0 <? n) && (st_batch s + n <=? length starts))%nat eqn:G; [|discriminate]. inversion H; subst s'; clear H.
+      destruct (nc_boot s K) as [Ec El]; [congruence|]. rewrite Ec, El.
+      constructor; cbn; auto; try constructor; intros; contradiction.
   Qed.
   Lemma reach_nc_InvNC s : no_fail -> reach_nc s -> InvNC s.
   Proof.
